@@ -361,6 +361,21 @@ def run_check(mod, tier, seed, replay=None):
         if v:
             oracle_violations.append({"case": c, "violation": v})
 
+    # ---- 2b. property-specific validation outside the line protocol -------
+    # (schedule exploration, fault sweeps, ...): `mod.extra(tier, rng)` returns
+    # {"evaluations": n, "nontrivial": [keys], "violations": [{"case":..., "violation": [...]}],
+    #  "disagreements": [{"case":..., "at":..., "real":..., "model":...}], "info": {...}}
+    extra_info = {}
+    extra_evals = 0
+    if hasattr(mod, "extra"):
+        ex = mod.extra(tier, random.Random(seed + 7)) or {}
+        extra_evals = int(ex.get("evaluations", 0))
+        for key in ex.get("nontrivial", []):
+            nontrivial.add(_hash(key))
+        oracle_violations.extend(ex.get("violations", []))
+        disagreements.extend(ex.get("disagreements", []))
+        extra_info = ex.get("info", {})
+
     # ---- 3. known findings ----------------------------------------------
     known_lines = []
     for k in open_known:
@@ -449,7 +464,8 @@ def run_check(mod, tier, seed, replay=None):
             "trusted_base": TRUSTED_BASE + list(getattr(mod, "TRUSTED_EXTRA", [])),
             "theorems": [t["name"] for t in theorems],
             "proof_problems": proof_problems,
-            "evaluations": len(cases),
+            "evaluations": len(cases) + extra_evals,
+            "extra": extra_info,
             "distinct_nontrivial": len(nontrivial),
             "rule": getattr(mod, "RULE", ""),
             "samples": samples,
